@@ -18,9 +18,10 @@ Known(e, d) == d \in SeqToSet(e.devs) /\ PrintT(<<"MSG", "KNOWN", d, e.case>>)
 
 Explained(e) ==
   IF RoundTripOK(e) THEN TRUE
-  ELSE \/ (DevDigitStart(e) /\ Known(e, "ident_digit_start_unescaped"))
+  ELSE \/ (DevDigitStart(e) /\ Known(e, "ident_start_unescaped"))
        \/ (DevSymbol(e) /\ Known(e, "nonascii_symbol_raw_rejected"))
        \/ (DevAttrNs(e) /\ Known(e, "attr_universal_ns_rule_rejected"))
+       \/ (DevTwoIds(e) /\ Known(e, "second_id_replaces_first"))
 
 Next == /\ l <= Len(Rec)
         /\ Explained(Rec[l]) = TRUE     \* evaluated as a value: no sub-action per disjunct
